@@ -185,6 +185,10 @@ def make_response(fr: str, e: dict, own: bytes, rnd: random.Random, own2: bytes 
     return ProtocolResponse(b"\xaa\x55\xf7\x03" + bytes([(2 * count) & 0xFF]) + bytes(pl) + b"\x00\x00", cmd)
 
 
+STATEFUL = {"EcoModeV1", "EcoModeV2", "PeakShavingMode", "Schedule"}
+_PRISTINE: dict = {}
+
+
 def sweep_job(args) -> dict:
     """Real side of one table job: plant all 65536 words, decode with the real sensor object, compare."""
     fam, tabname, fr, idx, base, pos, table_path, seed, step = args
@@ -197,6 +201,10 @@ def sweep_job(args) -> dict:
     bad = []
     n = 0
     raised = {}
+    # group sensors keep the fields of their last decode on the object: every word is also decoded by a copy of the object
+    # as it was before its first decode in this process (a decode must not depend on what the object decoded before)
+    import copy
+    pristine = _PRISTINE.setdefault((fam, tabname, idx), copy.deepcopy(s)) if e["ty"] in STATEFUL else None
     for w in range(0, 65536, step):
         own = bytearray(base)
         if e["ty"] == "EnumBitmap22":
@@ -212,8 +220,33 @@ def sweep_job(args) -> dict:
             resp = make_response(fr, e, bytes(own), rnd)
         try:
             got = val(s.read(resp))
+            if pristine is not None:
+                resp2 = copy.copy(resp)
+                try:
+                    import io
+                    for k_, v_ in vars(resp2).items():
+                        if isinstance(v_, io.BytesIO):
+                            setattr(resp2, k_, io.BytesIO(v_.getvalue()))
+                except Exception:  # noqa
+                    pass
+                try:
+                    got2 = val(copy.deepcopy(pristine).read(resp2))
+                except ValueError:
+                    got2 = {"k": "none", "a": [], "s": ""}
+                if not val_eq(got, got2) and len(bad) < 5:
+                    bad.append({"w": w, "clause": "C12.Value", "want": got, "got": got2, "note": "fresh object decodes differently"})
         except ValueError:
             got = {"k": "none", "a": [], "s": ""}
+            if pristine is not None:
+                try:
+                    copy.deepcopy(pristine).read(make_response(fr, e, bytes(own), rnd) if e["ty"] != "EnumBitmap22" else resp)
+                except ValueError:
+                    pass
+                except Exception as ex:  # noqa
+                    raised[type(ex).__name__] = raised.get(type(ex).__name__, 0) + 1
+                    if len(bad) < 5:
+                        bad.append({"w": w, "clause": "C11.Total", "exc": type(ex).__name__, "note": "fresh object"})
+                    continue
         except Exception as ex:  # noqa
             raised[type(ex).__name__] = raised.get(type(ex).__name__, 0) + 1
             if len(bad) < 5:
